@@ -1737,6 +1737,27 @@ def f_date_by_value():
     return not bad, "; ".join(bad) or "dates outside the field are refused"
 
 
+@finding("C14/activity-after-close/seeding-task-own-callback", "C14")
+def f_seeding_close_from_callback():
+    """build_network_map: a seeding send fails, DISCONNECTED is reported inside the seeding task, the status callback closes the client — close()
+    does not cancel the task it runs in, and that task went on sleeping and sending for four more seconds"""
+    return _script("C14_seeding_close_from_callback.py")
+
+
+@finding("C13/connected-without-receiver/connect-cancelled", "C13")
+def f_connect_cancelled():
+    """wait_for(client.connect(), t) expires while the CONNECTED status callback is still running: state CONNECTED, no receive loop; every later
+    connect() returned at once, nothing was delivered, the end of the stream was never noticed"""
+    return _script("C13_connect_cancelled.py")
+
+
+@finding("C13/not-recovered/reconnect-task-gives-up", "C13")
+def f_reconnect_gives_up():
+    """an application connect() bounded by a timeout holds the lock when the reconnect task wakes: the task's connect() returned at once and the
+    task ended; when the application's call timed out nobody tried again"""
+    return _script("C13_reconnect_gives_up.py")
+
+
 def run(keys=None):
     out = {}
     for k, (prop, fn) in FINDINGS.items():
